@@ -1158,3 +1158,151 @@ Proof. intros s _. apply second_roundtrip_gen. Qed.
 
 Corollary dec_enc_twice : forall s, wf_schema s = true -> dec_schema (enc_schema (norm_schema s)) = DOk (norm_schema s).
 Proof. intros s Hwf. rewrite second_roundtrip_gen. apply dec_enc_schema. exact Hwf. Qed.
+
+(* ------------------------------------------------------------------------------------------ *)
+(* Part 2: the decoder never runs out of fuel                                                  *)
+(* ------------------------------------------------------------------------------------------ *)
+Lemma sfield_nofuel key m : sfield key m <> DFuel.
+Proof. unfold sfield. destruct (jget (k key) m) as [[]|]; discriminate. Qed.
+
+Lemma dec_annots_nofuel o : dec_annots_map o <> DFuel.
+Proof.
+  destruct o as [[| | | | | |m]|]; cbn [dec_annots_map]; try discriminate.
+  apply dbind_nofuel; [|discriminate]. apply dall_map_nofuel. intros kv _. destruct (snd kv); discriminate.
+Qed.
+
+Lemma dec_strs_nofuel o : dec_strs o <> DFuel.
+Proof.
+  destruct o as [[| | | | |l|]|]; cbn [dec_strs]; try discriminate.
+  apply dall_map_nofuel. intros x _. destruct x; discriminate.
+Qed.
+
+Lemma dec_req_nofuel o : dec_req o <> DFuel.
+Proof. destruct o as [[]|]; discriminate. Qed.
+
+Lemma raw_of_json_nofuel : forall f mode j, (jdepth j <= f)%nat -> raw_of_json f mode j <> DFuel.
+Proof.
+  induction f as [|f IH]; intros mode j Hj.
+  - pose proof (jdepth_pos j). lia.
+  - destruct j as [| | | | | |m]; try discriminate.
+    rewrite raw_of_json_obj. destruct (negb (struct_ok (mode_fields mode) m)); [discriminate|].
+    apply dbind_nofuel; [apply sfield_nofuel|intros ty]. apply dbind_nofuel; [apply sfield_nofuel|intros name].
+    apply dbind_nofuel; [|intros el].
+    { destruct (field "element" m) as [e|] eqn:E; [|discriminate]. cbn [dec_el]. apply dbind_nofuel; [|discriminate].
+      apply IH. pose proof (field_depth _ _ _ E). lia. }
+    apply dbind_nofuel; [|intros attrs].
+    { destruct (field "attributes" m) as [a|] eqn:E; [|discriminate]. pose proof (field_depth _ _ _ E) as Hd.
+      destruct a as [| | | | | |am]; try discriminate. cbn [dec_attrs]. apply dbind_nofuel; [|discriminate].
+      apply dall_map_nofuel. intros kv Hkv. unfold dec_kv. apply dbind_nofuel; [|discriminate].
+      apply IH. pose proof (jdepth_obj_in kv am Hkv). lia. }
+    destruct mode; [discriminate| |].
+    + apply dbind_nofuel; [apply dec_req_nofuel|intros req]. apply dbind_nofuel; [apply dec_annots_nofuel|discriminate].
+    + apply dbind_nofuel; [apply dec_annots_nofuel|discriminate].
+Qed.
+
+Lemma type_of_raw_eq ty el attrs name :
+  type_of_raw (RawTy ty el attrs name) =
+  if str_eqb ty (k "String") then DOk XString
+  else if str_eqb ty (k "Long") then DOk XLong
+  else if str_eqb ty (k "Boolean") then DOk XBool
+  else if str_eqb ty (k "Extension") then DOk (XExt name)
+  else if str_eqb ty (k "Set") then match el with None => DErr | Some e => dbind (type_of_raw e) (fun t => DOk (XSet t)) end
+  else if str_eqb ty (k "Record") then dbind (dall (map type_attr attrs)) (fun fs => DOk (XRec fs))
+  else if str_eqb ty (k "Entity") then DOk (XEnt name)
+  else if str_eqb ty (k "EntityOrCommon") then DOk (XRef name)
+  else DOk (XRef ty).
+Proof. rewrite <- type_attrs_fix. reflexivity. Qed.
+
+Lemma type_of_raw_nofuel : forall r, type_of_raw r <> DFuel.
+Proof.
+  induction r as [ty el attrs name IHel IHattrs] using rawty_ind'. rewrite type_of_raw_eq.
+  repeat match goal with |- (if ?c then _ else _) <> _ => destruct c; [try discriminate|] end; try discriminate.
+  - destruct el as [e|]; [|discriminate]. cbn [optP] in IHel. apply dbind_nofuel; [exact IHel|discriminate].
+  - apply dbind_nofuel; [|discriminate]. apply dall_map_nofuel. intros kv Hkv. rewrite Forall_forall in IHattrs.
+    unfold type_attr. apply dbind_nofuel; [apply IHattrs; exact Hkv|discriminate].
+Qed.
+
+Lemma dec_type_nofuel j : dec_type j <> DFuel.
+Proof. unfold dec_type. apply dbind_nofuel; [apply raw_of_json_nofuel; lia|intros r; apply type_of_raw_nofuel]. Qed.
+
+Lemma raw_opt_nofuel o : raw_opt o <> DFuel.
+Proof.
+  unfold raw_opt. destruct o as [x|]; [|discriminate].
+  destruct x; try discriminate; (apply dbind_nofuel; [apply raw_of_json_nofuel; lia|discriminate]).
+Qed.
+
+Lemma dec_entity_type_nofuel j : dec_entity_type j <> DFuel.
+Proof.
+  destruct j as [| | | | | |m]; try discriminate. unfold dec_entity_type.
+  destruct (negb (struct_ok entity_fields m)); [discriminate|].
+  apply dbind_nofuel; [apply dec_strs_nofuel|intros parents]. apply dbind_nofuel; [apply dec_annots_nofuel|intros an].
+  apply dbind_nofuel; [apply (raw_opt_nofuel (jget (k "shape") m))|intros sr].
+  apply dbind_nofuel; [apply (raw_opt_nofuel (jget (k "tags") m))|intros tr].
+  destruct (jget (k "enum") m) as [[| | | | |vs|]|]; try discriminate.
+  - apply dbind_nofuel; [|intros shape].
+    { destruct sr as [[ty el attrs name]|]; [|discriminate]. apply dbind_nofuel; [apply type_of_raw_nofuel|]. intros t. destruct t; discriminate. }
+    apply dbind_nofuel; [|discriminate]. destruct tr as [r|]; [|discriminate]. apply dbind_nofuel; [apply type_of_raw_nofuel|discriminate].
+  - apply dbind_nofuel; [apply (dec_strs_nofuel (Some (JArr vs)))|discriminate].
+  - apply dbind_nofuel; [|intros shape].
+    { destruct sr as [[ty el attrs name]|]; [|discriminate]. apply dbind_nofuel; [apply type_of_raw_nofuel|]. intros t. destruct t; discriminate. }
+    apply dbind_nofuel; [|discriminate]. destruct tr as [r|]; [|discriminate]. apply dbind_nofuel; [apply type_of_raw_nofuel|discriminate].
+Qed.
+
+Lemma dec_parent_nofuel j : dec_parent j <> DFuel.
+Proof.
+  destruct j as [| | | | | |m]; try discriminate. unfold dec_parent. destruct (negb (struct_ok parent_fields m)); [discriminate|].
+  apply dbind_nofuel; [apply sfield_nofuel|intros i]. apply dbind_nofuel; [apply sfield_nofuel|discriminate].
+Qed.
+
+Lemma dec_type_opt_nofuel o : dec_type_opt o <> DFuel.
+Proof.
+  unfold dec_type_opt. destruct o as [x|]; [|discriminate].
+  destruct x; try discriminate; (apply dbind_nofuel; [apply dec_type_nofuel|discriminate]).
+Qed.
+
+Lemma dec_applies_nofuel j : dec_applies j <> DFuel.
+Proof.
+  destruct j as [| | | | | |m]; try discriminate. unfold dec_applies. destruct (negb (struct_ok applies_fields m)); [discriminate|].
+  apply dbind_nofuel; [apply dec_strs_nofuel|intros ps]. apply dbind_nofuel; [apply dec_strs_nofuel|intros rs].
+  apply dbind_nofuel; [apply dec_type_opt_nofuel|discriminate].
+Qed.
+
+Lemma dec_action_nofuel j : dec_action j <> DFuel.
+Proof.
+  destruct j as [| | | | | |m]; try discriminate. unfold dec_action. destruct (negb (struct_ok action_fields m)); [discriminate|].
+  apply dbind_nofuel; [|intros ps].
+  { destruct (jget (k "memberOf") m) as [[| | | | |l|]|]; try discriminate. apply dall_map_nofuel. intros x _. apply dec_parent_nofuel. }
+  apply dbind_nofuel; [|intros ap].
+  { destruct (jget (k "appliesTo") m) as [x|]; [|discriminate].
+    destruct x; try discriminate; (apply dbind_nofuel; [apply dec_applies_nofuel|discriminate]). }
+  apply dbind_nofuel; [apply dec_annots_nofuel|discriminate].
+Qed.
+
+Lemma dec_common_nofuel j : dec_common j <> DFuel.
+Proof.
+  unfold dec_common. apply dbind_nofuel; [apply raw_of_json_nofuel; lia|intros r].
+  apply dbind_nofuel; [apply type_of_raw_nofuel|discriminate].
+Qed.
+
+Lemma dec_map_nofuel {A} (dec : json -> dres A) o : (forall j, dec j <> DFuel) -> dec_map dec o <> DFuel.
+Proof.
+  intros H. destruct o as [[| | | | | |m]|]; cbn [dec_map]; try discriminate.
+  apply dbind_nofuel; [|discriminate]. apply dall_map_nofuel. intros kv _. apply dbind_nofuel; [apply H|discriminate].
+Qed.
+
+Lemma dec_ns_nofuel j : dec_ns j <> DFuel.
+Proof.
+  destruct j as [| | | | | |m]; try discriminate. unfold dec_ns. destruct (negb (struct_ok ns_fields m)); [discriminate|].
+  apply dbind_nofuel; [apply dec_map_nofuel; apply dec_entity_type_nofuel|intros ets].
+  apply dbind_nofuel; [apply dec_map_nofuel; apply dec_action_nofuel|intros acts].
+  apply dbind_nofuel; [apply dec_map_nofuel; apply dec_common_nofuel|intros cts].
+  apply dbind_nofuel; [apply dec_annots_nofuel|intros an]. destruct (split_sum ets). discriminate.
+Qed.
+
+Theorem dec_schema_total : forall j, dec_schema j <> DFuel.
+Proof.
+  intros j. unfold dec_schema. destruct (any_dups (S (jdepth j)) j); [discriminate|].
+  destruct j as [| | | | | |m]; try discriminate.
+  apply dbind_nofuel; [|discriminate]. apply dall_map_nofuel. intros kv _.
+  apply dbind_nofuel; [apply dec_ns_nofuel|discriminate].
+Qed.
